@@ -43,7 +43,7 @@ exclusive × precision 1, 2, 3 × lower or upper bound). -/
 theorem nestedRC_exact (E : Env) (rc : RC) (hd : PyDom rc = true) (X Y Z : Nat) (hE : EnvPy E X Y Z) :
     ∃ syn, parseText (nestedRC "python_version" rc) = .ok syn ∧
       evalSyn E syn = some (rc.allows (pyV X Y Z)) := by
-  obtain ⟨syn, _, hp, he, _⟩ := nestedRC_conj E rc hd X Y Z hE
+  obtain ⟨syn, _, hp, he, _⟩ := nestedRC_conj (Q := QTrue) E rc hd (rcBoundQ_true rc) X Y Z hE
   exact ⟨syn, hp, he⟩
 
 /-- `>3.8,<=3.10` is in the domain: printed `python_full_version > "3.8.0" and python_full_version <= "3.10.0"` -/
